@@ -20,6 +20,7 @@ RULE = (
     "constraints and pressure on closed surfaces. Non-trivial: max|F - I| >= 0.05 and >= 2 cells (loads: non-zero)."
     ' Added after seeded rounds: a u/p law that returns all nv x nu blocks (non-symmetric for alpha != 1), contact walls that touch the body initially, every second single-item case hands the state over in a foreign copy of the container.'
     ' Family lifecycle: generated programs of state changes, load updates and assemblies (own container / foreign copy / no argument) on ONE item; after every assembly the vector or matrix equals that of an item built from scratch at the same state (model of the no-argument call: the state seen last; update() of pressure / Cauchy-stress items re-reads their container).'
+    ' Families material-kwargs (per-call material arguments: vector / matrix with kwargs equal those of the material with that default) and tools-fun-jac (the item-free helpers of the Newton path: jac = d fun / du for sym=True / sym=False); ring loads and Cauchy stresses on axisymmetric fields; a boundary region reloaded under a Cauchy-stress item.'
 )
 ASSUMPTIONS = [
     "finite differences resolve relative errors >= 1e-6 of the largest matrix entry",
